@@ -5,7 +5,28 @@ import json, os, re, subprocess, sys, tempfile, shutil, time
 HERE = os.path.dirname(os.path.dirname(os.path.abspath(__file__)))
 os.chdir(HERE)
 checks = [c["property_id"] for c in json.load(open("MANIFEST.json"))["checks"]]
+RELATED = "--related" in sys.argv
+sys.argv = [a for a in sys.argv if a != "--related"]
 ids = sys.argv[1:] or sorted(os.listdir("seeded"))
+sys.path.insert(0, os.path.join(HERE, "tools"))
+import automutate as _am
+
+
+def related_checks(mid):
+    """own check + the checks mapped to the files the patch touches (tools/automutate.py FILES) + the generic catch-alls"""
+    own = mid.split("-")[0]
+    rel = {own, "C06", "C01", "C15"}
+    for l in open("seeded/%s/patch.diff" % mid, errors="replace"):
+        if l.startswith("+++ b/"):
+            f = l[6:].strip()
+            rel.update(_am.FILES.get(f, []))
+            if f.startswith("partial/idn") and not f.startswith("partial/idn2"):
+                rel.add("C18")
+            if f == "Makefile":
+                rel.add("C17")
+            if f.startswith(("data/", "util/", "src/auto_tld", "include/eav/auto_tld")):
+                rel.update(["C11", "C07"])
+    return [c for c in checks if c in rel]
 ids = [i for i in ids if i != "not-kept" and os.path.exists("seeded/%s/patch.diff" % i)]
 out_path = "seeded/matrix.json"
 matrix = json.load(open(out_path)) if os.path.exists(out_path) else {}
@@ -21,7 +42,7 @@ for mid in ids:
             matrix[mid] = {"error": "patch does not apply"}
             continue
         row = {}
-        for p in checks:
+        for p in (related_checks(mid) if RELATED else checks):
             env = dict(os.environ, VERIF_REPO=r, VERIF_EVIDENCE_DIR=os.path.join(w, "ev"), VERIF_REPLAY_DIR=os.path.join(w, "rp"), VERIF_SEED="1")
             t0 = time.time()
             pr = subprocess.run(["./check", p, "--tier", "quick"], stdout=subprocess.PIPE, stderr=subprocess.STDOUT, env=env)
@@ -31,7 +52,7 @@ for mid in ids:
                       "wall_s": round(time.time() - t0, 1)}
         matrix[mid] = row
         json.dump(matrix, open(out_path, "w"), indent=1, sort_keys=True)
-        caught = [p for p in checks if row[p]["exit"] == 1]
-        print(mid, "caught by", caught, "inconclusive:", [p for p in checks if row[p]["exit"] == 2], flush=True)
+        caught = [p for p in row if row[p]["exit"] == 1]
+        print(mid, "caught by", caught, "inconclusive:", [p for p in row if row[p]["exit"] == 2], "of", len(row), flush=True)
     finally:
         shutil.rmtree(w, ignore_errors=True)
